@@ -1,17 +1,25 @@
 package main
 
 import (
+	"encoding/xml"
 	"fmt"
 	"net/http"
 	"net/http/httptest"
 	"os"
 	"runtime"
 	"strconv"
+	"strings"
 	"sync"
 	"sync/atomic"
 
 	"github.com/gookit/rux"
 )
+
+type stressDoc struct {
+	XMLName xml.Name `xml:"doc"`
+	ID      string   `xml:"id"`
+	Pad     string   `xml:"pad"`
+}
 
 // ruxh stress -seed N -iters K : 8 goroutines fire mixed static / dynamic / 404 / 405 / HEAD requests at several router
 // shapes; every response must be the one the request gets alone. Built with -race by bin/check: the race detector's
@@ -85,6 +93,50 @@ func stressMain(args []string) {
 			probe{"POST", "/s0", "405[GET]:Method not allowed\n"}, probe{"DELETE", "/m/7", "405[GET, PATCH, POST, PUT]:Method not allowed\n"},
 			probe{"OPTIONS", "/m/8", "200[GET, PATCH, POST, PUT]:"}, probe{"TRACE", "/m/7", "405[GET, PATCH, POST, PUT]:Method not allowed\n"})
 		r.Add("/m/{id}", func(c *rux.Context) { c.Text(200, "multi") }, "GET", "POST", "PUT", "PATCH")
+		// encoded responses (the renderers may pool their buffers): every request must get its own document
+		r.GET("/j/{id}", func(c *rux.Context) {
+			c.JSON(200, map[string]string{"id": c.Param("id"), "pad": strings.Repeat(c.Param("id"), 200)})
+		})
+		r.GET("/jp/{id}", func(c *rux.Context) {
+			c.JSONP(200, "cb", []string{c.Param("id"), strings.Repeat("p"+c.Param("id"), 150)})
+		})
+		r.GET("/xm/{id}", func(c *rux.Context) {
+			c.XML(200, stressDoc{ID: c.Param("id"), Pad: strings.Repeat(c.Param("id"), 180)})
+		})
+		// two overlapping routes of one bucket, registered in non-alphabetical order: the first one keeps winning
+		// while the table is being listed
+		r.GET("/users/{name}", func(c *rux.Context) { c.Text(200, "name:"+c.Param("name")) })
+		r.GET("/users/{id:\\d+}", func(c *rux.Context) { c.Text(200, "id:"+c.Param("id")) })
+		r.GET("/zeta/{b}/x", func(c *rux.Context) { c.Text(200, "zeta-b:"+c.Param("b")) })
+		r.GET("/zeta/{a:[a-z]+}/x", func(c *rux.Context) { c.Text(200, "zeta-a:"+c.Param("a")) })
+		probes = append(probes, probe{"GET", "/users/42", "200:name:42"}, probe{"GET", "/users/bob", "200:name:bob"}, probe{"GET", "/zeta/q/x", "200:zeta-b:q"})
+		for _, id := range []string{"1", "22", "abc"} {
+			for _, pre := range []string{"/j/", "/jp/", "/xm/"} {
+				// what the request gets when it is alone
+				w := httptest.NewRecorder()
+				r.ServeHTTP(w, httptest.NewRequest("GET", pre+id, nil))
+				probes = append(probes, probe{"GET", pre + id, fmt.Sprintf("%d:%s", w.Code, w.Body.String())})
+			}
+		}
+		// the read-only inspection API is used while requests are served (a debug endpoint, a metrics scraper)
+		stop := make(chan struct{})
+		var insp sync.WaitGroup
+		insp.Add(1)
+		go func() {
+			defer insp.Done()
+			for {
+				select {
+				case <-stop:
+					return
+				default:
+				}
+				_ = r.String()
+				_ = r.Routes()
+				r.IterateRoutes(func(*rux.Route) {})
+				_ = r.NamedRoutes()
+				runtime.Gosched()
+			}
+		}()
 		var wg sync.WaitGroup
 		for g := 0; g < 8; g++ {
 			g := g
@@ -114,6 +166,8 @@ func stressMain(args []string) {
 			}()
 		}
 		wg.Wait()
+		close(stop)
+		insp.Wait()
 		bg.Wait()
 	}
 	fw, _ := firstWrong.Load().(string)
